@@ -781,7 +781,9 @@ VALUES = ['', 'word', 'two words', '{Braced} text', 'a {"} b', 'q "x" q', '1993'
           '(paren) [x]', 'x < y > z', "it's", '– €', '{{nested} {deep}}', '"', '\\', 'a=b,c', '@k{x}', '{a "b" c}',
           '{a{b{c{d}e}f}g} {{{{{{deep}}}}}}',
           # the brace-less accent spelling: a backslash in front of a brace-level-0 double quote is still a double quote for the reader
-          'G\\"odel', '\\"Uber S\\"atze', 'x\\" {"} y', '\\"']
+          'G\\"odel', '\\"Uber S\\"atze', 'x\\" {"} y', '\\"',
+          # digit strings that are not the canonical spelling of their number (a writer that emits numbers loses them)
+          '03', '007', '00', '0', '\uff11\uff19\uff19\uff17', '\u0661\u0669', '0010', '+7', '-0', '1.50', '0o17', '1e3', '.5', '12:30']
 # outside the claimed domain (correspondence only)
 VALUES_OUT = ['100% x', 'a_b', 'R&D', 'x~y', '#1', ' lead', 'trail ', 'two  spaces', 'a\nb', 'tab\there', '{open', 'close}', '}{',
               '{}}{}', 'a\x0bb', 'a\xa0b', '%', 'a%b%c', '~', 'x~ y', '~~', '{' * 101 + 'x' + '}' * 101, '{' * 100 + 'x' + '}' * 100]
